@@ -176,7 +176,7 @@ fn offline_check(w: &World) -> Option<String> {
 }
 
 pub fn run(ctx: &Ctx, rep: &mut Report) {
-    let total = ctx.universes(400, 20000);
+    let total = ctx.universes(480, 30000);
     let ops_per_universe = 50;
     for uni in ctx.my_universes(total) {
         let mut rng = ctx.rng_for(uni);
